@@ -290,7 +290,9 @@ def FDD_mpe(
             np.argmin(np.abs(freq - lim[1])),
         )  # Indices of the limits
         # Ratios between the first and second singular value
-        diffS1S2 = Sval[0, 0, idxlim[0] : idxlim[1]] / Sval[1, 1, idxlim[0] : idxlim[1]]
+        diffS1S2 = (
+            Sval[0, 0, idxlim[0] : idxlim[1] + 1] / Sval[1, 1, idxlim[0] : idxlim[1] + 1]
+        )
         maxDiffS1S2 = np.max(diffS1S2)  # Looking for the maximum difference
         idx1 = np.argmin(np.abs(diffS1S2 - maxDiffS1S2))  # Index of the max diff
         idxfin = idxlim[0] + idx1  # Final index
